@@ -17,7 +17,7 @@ pub fn property() -> Property {
     Property {
         id: "C11",
         level: "exploration",
-        rule: "(static) generated positions P of all material profiles and their colour-flipped twins flip(P): static_eval(flip P) == -static_eval(P) (hook, white-centric); (search) `go depth d`, d in 1..3, on P and flip(P) with a fresh engine each: identical score / mate distance from the mover's point of view; (terminal) checkmate and stalemate positions of both colours with full-move numbers 1..2000: the evaluator gives a losing mate value to the mated mover (sign by colour), strictly better for the loser the later the mate happens, 0 for stalemate, and score conversion yields negative mate distances for the mated side. Non-trivial = distinct P != flip(P) with non-zero evaluation (static / search), distinct mate or stalemate position (terminal)",
+        rule: "(static) generated positions P of all material profiles and their colour-flipped twins flip(P): static_eval(flip P) == -static_eval(P) (hook, white-centric); (search) `go depth d`, d in 1..3, on P and flip(P) — a quarter of the cases with a (mirrored) shuffling game history so that repetition draws are within reach — with a fresh engine each: identical score / mate distance from the mover's point of view; (terminal) checkmate and stalemate positions of both colours with full-move numbers 1..2000 and half-move clocks 0..150: the evaluator gives a losing mate value to the mated mover (sign by colour), strictly better for the loser the later the mate happens, 0 for stalemate, and score conversion yields negative mate distances for the mated side. Non-trivial = distinct P != flip(P) with non-zero evaluation (static / search), distinct mate or stalemate position (terminal)",
         assumptions: &["static evaluation and score conversion reached through the cfg(inkayaku_verif) hooks"],
         parts: vec![
             Part {
@@ -33,7 +33,7 @@ pub fn property() -> Property {
                 quick: 600,
                 thorough: 20_000,
                 single_shard: false, supplementary: false,
-                run: |cfg| run_part(cfg, (prop_oneof![3 => gen::raw_pos(70), 2 => gen::raw_pos_endgames()], 1..=3u32), |(r, d)| SearchCase { fen: gen::position(r, ClockDomain::EngineQuiet).fen(), depth: *d }, check_search),
+                run: |cfg| run_part(cfg, (prop_oneof![3 => gen::raw_pos(70), 2 => gen::raw_pos_endgames()], 1..=3u32, 0..4u8, any::<u16>()), |(r, d, h, x)| search_case(r, *d, *h, *x), check_search),
                 replay: |v| replay_case::<SearchCase, _>(v, check_search),
             },
             Part {
@@ -84,22 +84,57 @@ pub fn check_static(c: &PosCase, ctx: &mut Ctx) -> Result<(), String> {
 pub struct SearchCase {
     pub fen: String,
     pub depth: u32,
+    /// game history (mirrored for the twin): repetition draws must be symmetric too
+    #[serde(default)]
+    pub history: Vec<String>,
+}
+
+fn search_case(r: &gen::RawPos, depth: u32, h: u8, x: u16) -> SearchCase {
+    let mut p = gen::position(r, ClockDomain::EngineQuiet);
+    let mut history = Vec::new();
+    if h == 0 {
+        // a shuffled history, so that third occurrences (valued with the contempt offset) are within reach
+        p.ep = None;
+        if let Some([a, b, a2, b2]) = crate::props::c10::shuffle_quad_pub(&p, x) {
+            let n = [6usize, 7, 3][(x % 3) as usize];
+            history = [a, b, a2, b2, a, b, a2].iter().take(n).map(|m| m.uci()).collect();
+        }
+    }
+    SearchCase { fen: p.fen(), depth, history }
+}
+
+/// the same move on the vertically mirrored board
+fn flip_move(m: &str) -> String {
+    let b = m.as_bytes();
+    let mut out = String::new();
+    for i in 0..b.len() {
+        if i == 1 || i == 3 {
+            out.push((b'1' + (b'8' - b[i])) as char);
+        } else {
+            out.push(b[i] as char);
+        }
+    }
+    out
 }
 
 pub fn check_search(c: &SearchCase, ctx: &mut Ctx) -> Result<(), String> {
     let p = Pos::from_fen(&c.fen).ok_or_else(|| format!("{HARNESS_PREFIX} bad fen {}", c.fen))?;
     let f = p.flip();
+    let flipped_history: Vec<String> = c.history.iter().map(|m| flip_move(m)).collect();
     let mut texts = Vec::new();
-    for q in [&p, &f] {
+    for (q, hist) in [(&p, &c.history), (&f, &flipped_history)] {
         let mut s = Session::new();
-        let out = run_search(&mut s, &q.fen(), &[], &GoSpec::depth(c.depth as u64))?;
+        let out = run_search(&mut s, &q.fen(), hist, &GoSpec::depth(c.depth as u64))?;
         s.quit()?;
         texts.push(out.last_scored().and_then(|i| i.score).map(|x| score_text(&x)));
     }
     if texts[0] != texts[1] {
-        return Err(format!("depth-{} search is not colour-symmetric: {} scores {:?}, its colour-flipped twin {} scores {:?}", c.depth, p.fen(), texts[0], f.fen(), texts[1]));
+        return Err(format!("depth-{} search is not colour-symmetric: {} (history {:?}) scores {:?}, its colour-flipped twin {} (history {:?}) scores {:?}", c.depth, p.fen(), c.history, texts[0], f.fen(), flipped_history, texts[1]));
     }
     ctx.class(&format!("depth_{}", c.depth));
+    if !c.history.is_empty() {
+        ctx.class("with_repetition_history");
+    }
     match &texts[0] {
         Some(t) if t.starts_with("mate -") => ctx.class("being_mated"),
         Some(t) if t.starts_with("mate") => ctx.class("mating"),
@@ -135,8 +170,13 @@ pub fn check_terminal(c: &TerminalCase, ctx: &mut Ctx) -> Result<(), String> {
     for t in terminals.clone() {
         terminals.push(t.flip());
     }
-    for mut t in terminals {
+    for (ti, mut t) in terminals.into_iter().enumerate() {
         t.full = c.fullmove as u64;
+        // mate and stalemate are what they are at any half-move clock (a mate on the 100th ply is still a mate)
+        t.half = [t.half, 0, 50, 99, 100, 101, 150][(c.fullmove as usize + ti) % 7];
+        if t.half >= 100 {
+            ctx.class("terminal_with_clock_ge_100");
+        }
         let mated = t.in_check(t.turn);
         let b = eng::board_from_pos(&t);
         let v = hooks::static_eval(&b, false);
@@ -158,6 +198,7 @@ pub fn check_terminal(c: &TerminalCase, ctx: &mut Ctx) -> Result<(), String> {
             // a later mate is better for the loser (nearer mates score better for the winner)
             let mut later = t.clone();
             later.full += 1;
+            later.half = t.half;
             let v2 = hooks::static_eval(&eng::board_from_pos(&later), false);
             let mover_rel2 = if t.turn == Color::White { v2 } else { -v2 };
             if !(mover_rel2 > mover_rel) {
